@@ -56,7 +56,7 @@ def main():
                       "-DABT_VERIF_DSCHED -include /verif/inst/vhook.h (macro layer over the "
                       "__atomic builtins) or with clang -fsanitize=thread objects linked against "
                       "/verif/inst/tsanrt.c, and link with -Wl,--wrap for blocking calls",
-            "baseline_off_cmd": "cd /repo && make -j8 >/dev/null && make check -j8",
+            "baseline_off_cmd": "cd /repo && make -j8 >/dev/null && make -C test check -j8",
             "source_commits": [],
             "add_only": True,
         },
